@@ -232,9 +232,12 @@ impl CoverageFormat2<'_> {
                 }
             })
             .ok()
-            .map(|idx| {
+            .and_then(|idx| {
                 let rec = &self.range_records()[idx];
-                rec.start_coverage_index() + gid.to_u16() - rec.start_glyph_id().to_u16()
+                // subtract first: `start_coverage_index + gid` can exceed u16::MAX
+                // in a valid table, even though the final index cannot
+                let offset = gid.to_u16() - rec.start_glyph_id().to_u16();
+                rec.start_coverage_index().checked_add(offset)
             })
     }
 
@@ -526,6 +529,20 @@ mod tests {
         assert_eq!(coverage.get(GlyphId::new(32)), Some(7));
         assert_eq!(coverage.get(GlyphId::new(39)), Some(14));
         assert_eq!(coverage.get(GlyphId::new(40)), None);
+    }
+
+    #[test]
+    fn coverage_get_format2_large_index_and_gid() {
+        // start_coverage_index + gid > u16::MAX, but the coverage index itself fits
+        let be_bytes = font_test_data::bebuffer::BeBuffer::new()
+            .push(2u16)
+            .push(2u16)
+            .extend([0u16, 0, 0])
+            .extend([0xFFFFu16, 0xFFFF, 1]);
+        let coverage = CoverageFormat2::read(be_bytes.data().into()).unwrap();
+        assert_eq!(coverage.get(GlyphId::new(0)), Some(0));
+        assert_eq!(coverage.get(GlyphId::new(0xFFFF)), Some(1));
+        assert_eq!(coverage.get(GlyphId::new(0xFFFE)), None);
     }
 
     #[test]
